@@ -1,5 +1,5 @@
 (** * C13 — Compile returns SQL or an error, and rejects every documented misuse. *)
-From PQL Require Import Model.Compile Spec.Rules Proofs.TableFacts Proofs.WriterFacts Proofs.RulesFacts.
+From PQL Require Import Model.Compile Spec.Rules Proofs.TableFacts Proofs.WriterFacts Proofs.RulesFacts Proofs.ProgRules.
 From Coq Require Import String.
 Local Open Scope list_scope.
 Local Open Scope nat_scope.
@@ -39,6 +39,33 @@ Theorem C13_templates_cover : forall w n i, arity_ok (writer_arity w) n = true -
   template_mentions (writer_template w) i = true.
 Proof. exact template_covers. Qed.
 Print Assumptions C13_templates_cover.
+
+(** Whole programs.  [prog_rules] (coq/Spec/Rules.v) says: the lets before the query are closed
+    constant expressions over the parameters and the lets before them, there is exactly one tabular
+    statement, and every operator of it - at any depth inside nested joins - carries only expressions
+    that obey the rules of their position (built-in arities, $left/$right only in join conditions), a
+    join has a known kind and its conditions obey the join-condition rules.  Compile returns SQL
+    exactly when the source parses and its program obeys these rules: nothing else makes it fail,
+    and no violation is missed wherever it sits. *)
+Theorem C13_compile_exact : forall params s,
+  (exists ps, compile params s = COk ps) <->
+  (exists ss, parse s = ParseOk ss /\ prog_rules (bnd (map (fun kv => (fst kv, [PRaw (snd kv)])) params)) None ss = true).
+Proof. exact compile_exact. Qed.
+Print Assumptions C13_compile_exact.
+
+(** the same on trees: for every program the parser can build *)
+Theorem C13_program_exact : forall source params ss, wf_prog ss = true ->
+  is_ok (compile_stmts source params ss) = prog_rules (bnd (map (fun kv => (fst kv, [PRaw (snd kv)])) params)) None ss.
+Proof. exact compile_program_rules. Qed.
+Print Assumptions C13_program_exact.
+
+Example C13_example_program :
+  (exists ps, compile [] (L "let n = 2; T | join (U | where not(a, b)) on k") = COk ps) -> False.
+Proof.
+  intros H. apply C13_compile_exact in H. destruct H as (ss & Hp & Hr).
+  assert (E : parse (L "let n = 2; T | join (U | where not(a, b)) on k") = ParseOk ss) by exact Hp.
+  vm_compute in E. injection E as <-. vm_compute in Hr. discriminate Hr.
+Qed.
 
 Example C13_example :
   let e := ECall (mkIdent (L "iff") None false) None
